@@ -205,6 +205,8 @@ class FakeKernel:
         self.stop_unreported = set()
         self.stops_done = 0
         self.was_stopped = set()       # a process is stopped at most once (as in Executor.tla: running -> stopped -> resumed)
+        self.reports = 0               # completions reported so far ("completed successfully" / "failed" lines)
+        self.reaped_at = {}            # pid -> value of self.reports when it was reaped
         if self.sched.get("unrelated"):
             # a child of this process that Conductor did not start (exits some time during the run)
             self.proc[60001] = "running"
@@ -232,9 +234,11 @@ class FakeKernel:
             return self.ev(e="Line", kind="skipping", t=m.group(1), k=int(m.group(2)), n=int(m.group(3)))
         m = re.match(r"^✓ (\S+) completed successfully\.$", s)
         if m:
+            self.reports += 1
             return self.ev(e="Line", kind="success", t=m.group(1))
         m = re.match(r"^✘ (\S+) failed\.$", s)
         if m:
+            self.reports += 1
             return self.ev(e="Line", kind="failed", t=m.group(1))
         if s.startswith("✨ Done!"):
             self.banners.append("done")
@@ -386,8 +390,22 @@ class FakeKernel:
         if ident in self.fail_launch:
             self.ev(e="SpawnFail", t=ident)
             raise OSError(errno.EAGAIN, "Resource temporarily unavailable")
-        pid = self.next_pid
-        self.next_pid += 1
+        pid = None
+        if self.sched.get("reuse_pids"):
+            # process ids are recycled: a new child may get the id of ANY process that has been reaped - an earlier task's or
+            # the one of a child Conductor did not start
+            # ... but never at once: the id space has to wrap around first. A reaped id becomes available again only after two
+            # further task completions have been REPORTED by Conductor since it was reaped (a stand-in for "much later")
+            free = sorted(p for p, s_ in self.proc.items() if s_ == "reaped" and self.reports - self.reaped_at.get(p, 0) >= 2)
+            pick = self.chooser.env_action(["none"] + [("reuse", p) for p in free], "pid_reuse") if free else 0
+            if pick:
+                pid = free[pick - 1]
+                self.status.pop(pid, None)
+                self.stop_unreported.discard(pid)
+                self.was_stopped.discard(pid)
+        if pid is None:
+            pid = self.next_pid
+            self.next_pid += 1
         self.proc[pid] = "running"
         self.task_of[pid] = ident
         out = env.get("COND_OUT")
@@ -417,6 +435,7 @@ class FakeKernel:
                 if z:
                     p = z[0]
                     self.proc[p] = "reaped"
+                    self.reaped_at[p] = self.reports
                     self.ev(e="Reap", pid=p, t=self.task_of[p], by="handler" if self.in_handler else "any")
                     return p, self.status[p]
                 if (flags & os.WUNTRACED) and self.stop_unreported:
@@ -436,6 +455,7 @@ class FakeKernel:
             s = self.proc.get(pid)
             if s == "zombie":
                 self.proc[pid] = "reaped"
+                self.reaped_at[pid] = self.reports
                 self.ev(e="Reap", pid=pid, t=self.task_of[pid], by="poll")
                 return pid, self.status[pid]
             if s == "stopped" and (flags & os.WUNTRACED) and pid in self.stop_unreported:
